@@ -189,6 +189,42 @@ def doK8s (a : Json) : Except String Json := do
     | .ok (some _) => Json.str "saved"
   pure <| J.obj [("load", load), ("saves", Json.arr sv.toArray)]
 
+/-- `C13.gwhist {shardCount, endpoints, names, rounds:[{n, leaders}]}`: a gateway that syncs again and again from
+    limiter servers whose published shard count may change; the look-ups of all names before the first sync and
+    after every sync. -/
+def doGwHist (a : Json) : Except String Json := do
+  let names ← J.getHexList a "names"
+  let g0 : Gw := { shardCount := ← J.getInt a "shardCount", leaderEndpoints := ← decodeEndpoints a "endpoints" }
+  let rounds ← (← J.getArr a "rounds").toList.mapM fun r => do
+    let n ← J.getInt r "n"
+    let leaders ← decodeEndpoints r "leaders"
+    pure (n, leaders.foldl (fun acc p => AList.set acc p.1 p.2) ([] : AList Str))
+  let look (g : Gw) (srv : Json) : Json := J.obj [
+    ("shardCount", J.int g.shardCount),
+    ("endpoints", encodeEndpoints g.leaderEndpoints),
+    ("shardIDFor", Json.arr (names.map fun x => gwRes J.int (shardIDFor g x)).toArray),
+    ("clientFor", Json.arr (names.map fun x => gwRes J.hex (clientFor g x)).toArray),
+    ("server", srv)]
+  let rec go (g : Gw) (rs : List (Int × AList Str)) (acc : Array Json) : Array Json :=
+    match rs with
+    | [] => acc
+    | (n, leaders) :: rest =>
+      let info : ServerInfo := { shardCount := toI32 n, endpoints := leaders.map fun p => { shardID := toI32 p.1, leader := p.2 } }
+      let g' := gwSync info g
+      go g' rest (acc.push (look g' (Json.arr (names.map fun x => shardRes (getShardID x n)).toArray)))
+  pure <| J.obj [("before", look g0 Json.null), ("rounds", Json.arr (go g0 rounds #[]))]
+
+/-- `C13.stop {periodic, items, api:[bool]}`: `stopLimitStoreWithRetry` on a k8s store holding `items` conditions
+    while the API accepts/fails writes per attempt. -/
+def doStop (a : Json) : Except String Json := do
+  let periodic ← J.getBool a "periodic"
+  let items ← J.getNat a "items"
+  let api ← (← J.getArr a "api").toList.mapM (·.getBool?)
+  let k : KStore := { newKStore periodic with items := items }
+  let r := stopWithRetry 10 api k
+  pure <| J.obj [("ok", J.bool r.2.1), ("attempts", J.nat r.2.2), ("stopCh", J.bool r.1.stopCh),
+                 ("stopped", J.bool r.1.stopped), ("flusher", J.bool r.1.flusherRunning)]
+
 /-- `handle method args`: `none` when the method is unknown. -/
 def handle (m : String) (a : Json) : Option (Except String Json) :=
   match m with
@@ -196,6 +232,8 @@ def handle (m : String) (a : Json) : Option (Except String Json) :=
   | "gateway" => some (doGateway a)
   | "history" => some (doHistory a)
   | "k8s" => some (doK8s a)
+  | "gwhist" => some (doGwHist a)
+  | "stop" => some (doStop a)
   | _ => none
 
 end KG.Driver.C13
